@@ -8,7 +8,7 @@ class C02(ContCheck):
     id = 'C02'
     nontrivial_rule = ('a history is non-trivial when at least one operation leaves the list non-empty (an insertion '
                        'succeeded); index arguments are drawn from -len-2..len+2 of the current ideal length, keys from a '
-                       '4-letter alphabet; distinct = distinct case lines (each history is run on all three classes)')
+                       '4-letter alphabet; distinct = distinct case lines (each history is run on all three classes); further strata: own-object arguments (remove/index/find/contains of get(i)), second use of a copy (`fork` = dup and keep using the COPY while the original is read back too, `swap`), insert_at/get/remove_at at every power of two and its neighbours (up to 257, class array up to 1025; thorough 513 / 2049), lists of 31..33, 63..65, 127..129, 255..257 (thorough ..1025) elements with every operation at the first/second/quarter/middle/last positions')
     assumptions = ['elements are non-empty spif_str objects compared by spif_str_cmp; element arguments of '
                    'append/prepend/insert/insert_at/index are non-NULL (NULL guards are C16)',
                    'ordered `insert` through the list interface is issued only on an ascending placeholder-free sequence '
@@ -26,23 +26,42 @@ class C02(ContCheck):
               'element is duplicated or lost). The real classes array, linked_list, dlinked_list are tied to this spec by running '
               'the extracted spec and the ASan build on the same histories (return values + full read-back through get(i), '
               'i in -len-1..len, and a fresh iterator after every operation); every divergence is a failing input.'
-              " Stage 2 (in Properties/C02_array.v, C02_linked_list.v, C02_dlinked_list.v, C02_interchangeable.v): pointer-level Gallina models of array.c (items block of exactly len slots, REALLOC/memmove bounds-checked), linked_list.c and dlinked_list.c (node store with use-after-free faults, head/tail/prev/next updates as written, traversals on fuel) are proved to REFINE the ideal sequence for every history of all 15 list operations incl. dup and iterators: never a Fault, outputs equal, and the representation predicate holds afterwards (array: items = the sequence; linked: the next chain from head spells it and no other node is live; dlinked: additionally the prev chain from tail spells the reverse), hence no link corruption, no leak of nodes on deletion, and the three classes are interchangeable (corollary C02_classes_interchangeable). Preconditions: lengths <= INT_MAX; ordered `insert` not issued with the head's key (the classes place equal keys differently; ContSpec documents it). Each class model is tied to its .c file by comparing return values, read-back AND the structure dump (items[], next walk, prev walk from tail) with the ASan build on every generated history. Decided only by the correspondence check: that the models mirror the C text, lifetime of the element objects, identity of dup'ed objects."),
+              " Stage 2 (in Properties/C02_array.v, C02_linked_list.v, C02_dlinked_list.v, C02_interchangeable.v): pointer-level Gallina models of array.c (items block of exactly len slots, REALLOC/memmove bounds-checked), linked_list.c and dlinked_list.c (node store with use-after-free faults, head/tail/prev/next updates as written, traversals on fuel) are proved to REFINE the ideal sequence for every history of all 15 list operations incl. dup and iterators: never a Fault, outputs equal, and the representation predicate holds afterwards (array: items = the sequence; linked: the next chain from head spells it and no other node is live; dlinked: additionally the prev chain from tail spells the reverse), hence no link corruption, no leak of nodes on deletion, and the three classes are interchangeable (corollary C02_classes_interchangeable). Preconditions: lengths <= INT_MAX; ordered `insert` not issued with the head's key (the classes place equal keys differently; ContSpec documents it). Each class model is tied to its .c file by comparing return values, read-back AND the structure dump (items[], next walk, prev walk from tail) with the ASan build on every generated history. Decided only by the correspondence check: that the models mirror the C text, lifetime of the element objects, identity of dup'ed objects."
+              ' Strengthened after the round-2 seeds: (a) far index values - insert_at past the end at every power of two and its neighbours, so the NULL padding crosses every allocation-block boundary; (b) second use of a copy - `fork` dups the list through the interface and the history continues on the COPY (and, after `swap`, on the original) while both are read back after every step and both are deleted at the end; the pointer-level models run the same composite with their own dup functions (dl_dup, ll_dup, arr_list_dup) in one store; (c) own-object arguments - the list is handed back the object it stores (remove/index/find/contains of get(i)); (d) sized lists built with quiet steps; (e) an exhausted iterator must stay exhausted. These are harness/driver-level compositions of the existing spec operations: the op datatypes and theorems are unchanged. Containers above 300 elements (class array list mode: 1100) are compared with the ideal object only; the pointer-level models (O(n) per memory access) take the rest.'),
         design_ref='DESIGN.md section 7, C02')
 
     def gen(self, tier, rng):
         cases = []
-        nrand = 6000 if tier == 'quick' else 100000
+        quick = tier == 'quick'
+        nrand = 6000 if quick else 100000
         for _ in range(nrand):
             cases += all_classes('list', contlib.list_history(rng))
         # longer lists: from-the-tail walks of the dlinked class need len >= 5
         for _ in range(nrand // 10):
             cases += all_classes('list', contlib.list_history(rng, maxops=25, keys=['a', 'b']))
-        depth = 4 if tier == 'quick' else 5
+        # keys that are prefixes of each other (a, aa, ab, b, ba, aaa)
+        for _ in range(nrand // 10):
+            cases += all_classes('list', contlib.list_history(rng, keys=contlib.KEYS_PREFIX))
+        depth = 4 if quick else 5
         ex = contlib.list_exhaustive(depth)
+        ex2 = contlib.list_exhaustive(3 if quick else 4, contlib.LIST_SYMBOLS2)
+        su = contlib.list_second_use()
+        far = contlib.list_far_index(8 if quick else 9)
+        # the class whose storage is one block (allocation arithmetic): further out
+        far_array = contlib.list_far_index(10 if quick else 11, 9 if quick else 10)
+        sized = contlib.list_sized(contlib.SIZES_QUICK if quick else contlib.SIZES_THOROUGH, rng)
         self.exhaustive_note = ('all %d sequences of %d symbolic list operations (alphabet of %d, indices relative to the '
-                                'current length, keys a/b), on three classes' % (len(ex), depth, len(contlib.LIST_SYMBOLS)))
-        for ops in ex:
+                                'current length, keys a/b) and all %d sequences of %d operations of the composite alphabet '
+                                '(own-object arguments, fork, swap; %d symbols), on three classes; %d second-use histories (every list '
+                                'of 0..3 and 5 elements, dup, two further operations on copy / original); %d far-index histories (index values '
+                                'up to %d, class array up to %d); %d '
+                                'histories on lists of %s elements'
+                                % (len(ex), depth, len(contlib.LIST_SYMBOLS), len(ex2), 3 if quick else 4, len(contlib.LIST_SYMBOLS2),
+                                   len(su), len(far) + len(far_array), 257 if quick else 513, 1025 if quick else 2049, len(sized),
+                                   '31..257' if quick else '31..1025'))
+        for ops in ex + ex2 + su + far + sized:
             cases += all_classes('list', ops)
+        cases += ['list array ' + ';'.join(ops) for ops in far_array]
         return cases
 
 
